@@ -99,6 +99,11 @@ def cases(tier, seed):
                 for policy in ("zero", "drop"):
                     for agg in ("all", "pc_cf"):
                         out.append(dict(seed=seed, bg=S.bg_for(setup), probes=[[st, loc]], cfg=S.cfg_for(setup, agg, policy, 100)))
+    # a reporting threshold of 0 (every unit in the feed counts as reporting)
+    for st_loc in S.probe_types(statuses=["reporting", "nonrep0", "nonrep_partial", "unexpected", "zero_baseline", "missing"], locations=["pop0", "newcounty"]):
+        for setup in ("np1", "ga1", "bs1"):
+            for policy in ("drop", "zero"):
+                out.append(dict(seed=seed, bg=S.bg_for(setup), probes=[list(st_loc)], cfg=S.cfg_for(setup, "all", policy, 0)))
     # two polls of one night: the caller keeps its feed DataFrame and overwrites the counts in place; the second run must
     # report the second poll's counts
     for setup in ("np2", "ga1", "bs1"):
